@@ -158,6 +158,54 @@ func RunWorld(env *Env, w *World) *Outcome {
 		}
 		return out
 	}
+	if w.Differential == "warm-up" && out.Infra == "" {
+		// the same world, but in the last lifetime an extra test that runs first uses every
+		// Config (and the package-level functions) in reverse order: the calls of the
+		// world must not notice (Configs are independent of each other, nothing is cached
+		// across them)
+		b, _ := json.Marshal(w)
+		var w2 World
+		json.Unmarshal(b, &w2)
+		l := w2.Lifetimes[len(w2.Lifetimes)-1]
+		warm := &scen.TestNode{Name: "Test0Warm", Site: 0}
+		id := 900000
+		for ci := len(l.Configs) - 1; ci >= -1; ci-- {
+			for _, api := range []string{scen.APIJSON, scen.APISJSON, scen.APISnapshot} {
+				if api == scen.APISJSON && ci >= 0 && l.Configs[ci].Filename != nil {
+					continue // a custom standalone file name belongs to one test only (DESIGN.md 12)
+				}
+				id++
+				val := scen.Str(`{"b":1,"a":[1,2,3],"c":{"z":1,"y":2}}`)
+				warm.Steps = append(warm.Steps, scen.Step{Kind: "call", Call: &scen.Call{ID: id, API: api, Cfg: ci, Values: []scen.Value{val}}})
+			}
+		}
+		l.Tests = append([]*scen.TestNode{warm}, l.Tests...)
+		out2 := runWorld(env, &w2)
+		if out2.Infra != "" {
+			out.Infra = out2.Infra
+			return out
+		}
+		sig := func(t []string) []string {
+			var o []string
+			for _, x := range t {
+				if strings.Contains(x, " call ") && !strings.Contains(x, "Test0Warm") {
+					o = append(o, x)
+				}
+			}
+			return o
+		}
+		t1, t2 := sig(out.Stats.Trace), sig(out2.Stats.Trace)
+		for k := 0; k < len(t1) && k < len(t2); k++ {
+			if t1[k] != t2[k] {
+				v := viol("config-cross-talk", len(w.Lifetimes)-1, -1, "", []string{"C12"}, "a call behaves differently after an unrelated test used the Configs of this world (and the package-level functions) in another order first:\n  without: %s\n  with:    %s", clip2(t1[k]), clip2(t2[k]))
+				if out.Viol == nil || !out.Viol.Has("C12") {
+					out.Viol = v
+				}
+				break
+			}
+		}
+		return out
+	}
 	if w.Differential != "fresh-config" || out.Infra != "" {
 		return out
 	}
@@ -706,6 +754,15 @@ func (st *wstate) outcomeViolation(i int, l *scen.Lifetime, ev *scen.CallEvent, 
 	}
 	if tasks {
 		props = append(props, "C06")
+	}
+	if obs == model.Failed && ex.Why != "matcher" && len(ex.Call.Matchers) > 0 {
+		for _, sg := range ev.Signals {
+			if sg.Kind == "error" && strings.Contains(sg.Text, "match.") {
+				// a matcher was reported as failing although none of them has to fail
+				// (e.g. a missing path under ErrOnMissingPath(false))
+				props = append(props, "C17")
+			}
+		}
 	}
 	sig := ""
 	for _, s := range ev.Signals {
